@@ -192,7 +192,7 @@ func pickSome[T any](g *simkit.Gen, xs []T, min int) []T {
 }
 
 var strPool = []string{"a", "bob", "carol", "x y", "Zed"}
-var strTrouble = []string{"", "test", "dGVzdA==", "123", "{\"a\":1}", "héllo ✓", "O'Brien", "back\\slash", "null"}
+var strTrouble = []string{"", "test", "dGVzdA==", "123", "{\"a\":1}", "héllo ✓", "O'Brien", "back\\slash", "null", "007", "1.10", "6222020200112345678", "42"}
 
 func genValFor(g *simkit.Gen, c ColDef, o GenOpts) Val {
 	if c.Nullable && g.Prob(0.15) {
